@@ -1570,7 +1570,7 @@ pub fn trace_on() -> bool {
 /// so that one-time lazy allocations fall outside every case epoch.
 pub fn warmup() {
     use crate::interp::ops::{OpKind, Outcome};
-    let kinds = [OpKind::Truncate, OpKind::WriteStatic { len: 10 }, OpKind::WriteVec { len: 10 }, OpKind::ReadVec { cap: 32, prefill: 2 }];
+    let kinds = [OpKind::Truncate, OpKind::WriteStatic { len: 10 }, OpKind::WriteVec { len: 10 }, OpKind::ReadVec { cap: 32, prefill: 2 }, OpKind::WriteVectored { a: 3, b: 4 }, OpKind::ReadVectored { a: 8, b: 8 }, OpKind::SendTo { len: 9, v6: false }, OpKind::SendTo { len: 9, v6: true }, OpKind::RecvFrom { cap: 16 }, OpKind::SockOpt, OpKind::Statx, OpKind::Connect { v6: true }];
     let mut steps = Vec::new();
     for k in &kinds {
         steps.push(Step::Start { kind: k.clone(), faults: vec![Fault::Eintr], outcome: Outcome::Ok { frac: 30000 } });
